@@ -92,6 +92,8 @@ def expr(t):
         return '%s(%s)' % (t['op'], ', '.join(parts))
     if k == 'in':
         return '%s %s {%s}' % (operand(t['x']), 'not_in' if t['neg'] else 'in', ', '.join(const(v) for v in t['set']))
+    if k == 'udo':
+        return '%s(%s)' % (t['name'], ', '.join(expr(a) for a in t['args']))
     if k == 'exists':
         return 'exists_in(%s, %s%s)' % (expr(t['l']), expr(t['r']), '' if t['retain'] == 'default' else ', ' + t['retain'])
     if k == 'if':
@@ -224,6 +226,9 @@ def prelude(t):
                 body = ('when %s then %s' % (expr(r['when'][0]), expr(r['then']))) if r['when'] else expr(r['then'])
                 rules.append('  %s: %s%s' % (''.join(chr(c) for c in r['name'][1]), body, _err(r)))
             out.append('define datapoint ruleset %s (variable %s) is\n%s\nend datapoint ruleset;' % (t['rs'], ', '.join(name(v) for v in t['vars']), ';\n'.join(rules)))
+        elif t.get('k') == 'udo':
+            out.append('define operator %s (%s)\n  returns %s is\n    %s\nend operator;' % (
+                t['name'], ', '.join('%s %s' % (p, ty) for p, ty in zip(t['params'], t['ptypes'])), t['returns'], expr(t['body'])))
         elif t.get('k') == 'hier':
             rules = []
             for r in t['rules']:
